@@ -1935,6 +1935,15 @@ pub fn execute(plan: &VPlan, rec: &mut Recorder) -> Option<Violation> {
     if plan.tail_grow.is_some() {
         rec.probe("memory_growth_is_last_charge");
     }
+    for op in plan.scripts.iter().flat_map(|s| s.ops.iter()) {
+        match op {
+            SOp::Env { func, .. } => rec.probe(if (7..=11).contains(&(func % ENV_FUNCS)) { "script_has_hash_or_signature_call" } else { "script_has_environment_getter" }),
+            SOp::Upgrade { .. } => rec.probe("script_has_upgrade"),
+            SOp::InvokeOther { tag, .. } if (5..=8).contains(tag) => rec.probe("script_has_p6_p7_query"),
+            SOp::InvokeOther { extra, .. } if *extra > 0 => rec.probe("script_has_oversized_invoke_payload"),
+            _ => {}
+        }
+    }
     let r0 = run_once(plan, &art, plan.energy);
     rec.tick(plan.energy - r0.remaining);
     rec.log_str(&format!("{:?}", r0.outcome));
